@@ -42,6 +42,11 @@ void unreg_range(const void* base);
 std::string name_of(const void* p);                       // "null", registered name, "blk+off", or "?k"
 bool is_registered(const void* p);
 
+// ---- plain-access tap (vtap.cpp; only in clients built with the tap) ---------------------------
+void tap_add(const void* p, size_t n);   // plain loads/stores inside [p,p+n) become pld/pst events
+void tap_remove(const void* p);
+void tap_clear();
+
 // ---- running -----------------------------------------------------------------------------------
 struct Config {
     uint64_t seed = 1;
